@@ -222,6 +222,21 @@ func TestC16(t *testing.T) {
 						}
 						rec.Class("store-refused-after-transient-failure")
 						rec.Case(true, fmt.Sprintf("%d|%d|%s", kl, vl, path), "path:"+path)
+						// an application error leaves the client's connection -- and so this
+						// handler -- in service: the next store through the same handler must
+						// lay its item out by the same rule (seed C16o: a chunk counter that
+						// survives the refused store).  A store that fails is not judged.
+						f.ResetLog()
+						if res2, _ := execHandler(h, wire.Cmd{Kind: wire.Set, Key: key, Value: val, Flags: flags}, 0); res2.Err == nil {
+							ops++
+							rec.Case(true, fmt.Sprintf("%d|%d|%s", kl, vl, "set-after-refusal"), "path:set-after-refusal")
+							if msg := c16Check(f.Log(), key, val, flags); msg != "" {
+								rp := rec.Violation("TestC16Replay", map[string]interface{}{"keylen": kl, "valuelen": vl, "path": "set-after-refusal"})
+								t.Fatalf("C16 keylen %d valuelen %d (payload %d) path set-after-refusal (store of %q refused with %#x, then the same store again on the same handler): %s; replay %s", kl, vl, p, last, status, msg, rp)
+							}
+						} else {
+							rec.Class("store-after-refusal-failed-not-judged")
+						}
 						h.Close()
 						h = chunkedOn(f) // the handler's connection state after an error is not this test's business
 						continue
@@ -300,7 +315,29 @@ func TestC16Replay(t *testing.T) {
 	h, f := newChunked()
 	f.LogValues = true
 	val := shapeValue(mkValue(uint32(c.Valuelen*7+c.Keylen), c.Valuelen), []int{0, 0, 1, 0, 2, 0, 3, 0, 4}[(c.Keylen*3+c.Valuelen+len(c.Path))%9])
-	if c.Path == "append" || c.Path == "prepend" {
+	if c.Path == "set-after-refusal" {
+		pl := chunkPayload(c.Keylen)
+		val = shapeValue(mkValue(uint32(c.Valuelen*7+c.Keylen), c.Valuelen), []int{0, 0, 1, 0, 2, 0, 3, 0, 4}[(c.Keylen*3+c.Valuelen+len("set-transient"))%9])
+		last := key + "-" + strconv.Itoa((c.Valuelen+pl-1)/pl-1)
+		status := uint16(0x85)
+		if (c.Keylen+c.Valuelen)%2 == 0 {
+			status = 0x86
+		}
+		fired := false
+		f.Arm(&fakemc.Fault{Kind: fakemc.FaultStatus, Status: status, Match: func(r *fakemc.Req) bool {
+			if !fired && r.Key == last && (r.Opcode == fakemc.OpSet || r.Opcode == fakemc.OpSetQ) {
+				fired = true
+				return true
+			}
+			return false
+		}})
+		execHandler(h, wire.Cmd{Kind: wire.Set, Key: key, Value: val, Flags: 9}, 0)
+		f.Disarm()
+		f.ResetLog()
+		if res, _ := execHandler(h, wire.Cmd{Kind: wire.Set, Key: key, Value: val, Flags: 9}, 0); res.Err != nil {
+			t.Skipf("second store failed (%v): not judged", res.Err)
+		}
+	} else if c.Path == "append" || c.Path == "prepend" {
 		execHandler(h, wire.Cmd{Kind: wire.Set, Key: key, Value: val[:c.Valuelen/3], Flags: 9}, 0)
 		f.ResetLog()
 		execHandler(h, wire.Cmd{Kind: wire.Append, Key: key, Value: val[c.Valuelen/3:]}, 0)
